@@ -826,9 +826,27 @@ def check_C04(tier, seed):
             # caching is on throughout: stage B3 predicts the rows of every full evaluation of the history, starting
             # from empty caches after an evaluation that did not run to completion
             qc.add(W, qs, _session_events(b, 2, b3=True), share_vars=rng.random() < 0.7)
+    # a sub-query that is mentioned only inside a selected expression - set_of([x, an(entity(y, c)).n]) - keeps state below
+    # the selection: after an abandoned or aborted evaluation the next ones must answer as if nothing had happened
+    xx, yy = {"k": "var", "i": 1}, {"k": "var", "i": 2}
+
+    def _cmp(op, e, a, v):
+        return {"k": "cmp", "op": op, "l": {"k": "attr", "e": e, "a": a}, "r": {"k": "lit", "v": datasets.iv(v)}}
+    subs = [_cmp("ge", yy, "n", 1), {"k": "or", "l": _cmp("eq", yy, "m", 0), "r": _cmp("ge", yy, "n", 2), "form": "fn"},
+            {"k": "pred", "p": "p_pos", "args": [{"k": "attr", "e": yy, "a": "n"}], "form": "fn"}]
+    outer = [{"k": "true"}, _cmp("ge", xx, "n", 1), {"k": "pred", "p": "p_pos", "args": [{"k": "attr", "e": xx, "a": "m"}], "form": "fn"}]
+    for _ in range(300 if quick else 6000):
+        W, doms = _world_and_doms(rng, 2, quick)
+        sel = [xx, {"k": "attr", "e": {"k": "sub", "i": 2, "c": rng.choice(subs), "quant": "an"}, "a": rng.choice(["n", "m", "s"])}]
+        if rng.random() < 0.3:
+            sel.reverse()
+        p = {"desc": "set_of", "sel": sel, "cond": rng.choice(outer), "flats": [], "bound": []}
+        first = rng.choice([{"op": "partial", "qi": 1, "k": 1, "how": "close"}, {"op": "partial", "qi": 1, "k": 2, "how": "drop"},
+                            {"op": "raised", "qi": 1, "at": rng.randint(1, 3), "want": "Boom", "how": "close"}])
+        qc.add(W, [mk_query(p, doms)], [first, drain_ev(1), drain_ev(1)], tag="selected-sub-query")
     # rule trees: an abandoned evaluation (k instances taken, iterator closed) must not change what the next ones conclude
     for nv in (1, 2):
-        trees = run.export("GenRule", f"trees{nv}", "TREE", constants=dict(MaxNodes=3, NConds=3, NV=nv, WithNext=False),
+        trees = run.export("GenRule", f"trees{nv}", "TREE", constants=dict(MaxNodes=3, NConds=3, NV=nv, WithNext=False, SiblingRefs=False),
                            invariants=("Export", "SizeOK"), count=False)
         for t in rng.sample(trees, min(len(trees), 200 if quick else 5000)):
             W, doms = _world_and_doms(rng, nv, quick)
@@ -992,7 +1010,7 @@ def check_C05(tier, seed, extra_programs=None):
             qc.add(W, [q, copy.deepcopy(q)], _c05_events(rng))
     # rule trees and rules: evaluated under on, on, off, on
     for nv in (1, 2):
-        trees = run.export("GenRule", f"trees{nv}", "TREE", constants=dict(MaxNodes=3, NConds=3 if quick else 4, NV=nv, WithNext=False),
+        trees = run.export("GenRule", f"trees{nv}", "TREE", constants=dict(MaxNodes=3, NConds=3 if quick else 4, NV=nv, WithNext=False, SiblingRefs=False),
                            invariants=("Export", "SizeOK"), count=False)
         for t in rng.sample(trees, min(len(trees), 150 if quick else 4000)):
             W, doms = _world_and_doms(rng, nv, quick)
@@ -1004,7 +1022,7 @@ def check_C05(tier, seed, extra_programs=None):
     # rule trees that also use `with next_rule(c):` branches: what such a branch means is not fixed by the listed properties,
     # that the answer is the same under both configurations and on re-evaluation is (C05 speaks of every rule tree)
     for nv in (1, 2):
-        trees = run.export("GenRule", f"next{nv}", "TREE", constants=dict(MaxNodes=3, NConds=3, NV=nv, WithNext=True),
+        trees = run.export("GenRule", f"next{nv}", "TREE", constants=dict(MaxNodes=3, NConds=3, NV=nv, WithNext=True, SiblingRefs=False),
                            invariants=("Export", "SizeOK"), count=False)
         trees = [t for t in trees if '"edge": "next"' in json.dumps(t)]
         for t in rng.sample(trees, min(len(trees), 150 if quick else 4000)):
@@ -1177,9 +1195,9 @@ def check_C16(tier, seed):
             return digest([t["qs"][0]["cond"], t["qs"][0]["sel"], t["qs"][0]["flats"]])
         return None
     return _grammar_check(
-        "C16", tier, seed, ["G7i", "G7o"],
+        "C16", tier, seed, ["G7i", "G7o", "G7p"],
         "flatten(e) for e in x.items / x.t (int lists, tuples, possibly empty, overlapping, repeated elements), x.n (a "
-        "scalar), x.refs / x.ref (objects); selections {element}, {parent, element}, {element, parent}; with and "
+        "scalar), x.o (a scalar that may be None), x.refs / x.ref (objects); selections {element}, {parent, element}, {element, parent}; with and "
         "without conditions on the element, the parent or both; rows compared as a multiset when parent and element are "
         "selected; non-trivial = more than one row", 1, nontrivial=nontrivial, fix_world=_no_repeats)
 
@@ -1491,7 +1509,7 @@ def check_C12(tier, seed):
     quick = tier == "quick"
     run.rule = ("rule trees built with Add, `with refinement(c):` and `with alternative(c):` by TLC's builder machine: every "
                 "shape with <= MaxNodes branches (base; chains of alternatives; refinements under base, refinements and "
-                "alternatives; alternatives under refinements) x branch conditions over the base's variables, one tagged "
+                "alternatives; alternatives under refinements; a second refinement block of one branch) x branch conditions over the base's variables, one tagged "
                 "conclusion per branch; each executed over random worlds; TLC computes which conclusion ripple-down rules "
                 "prescribe per assignment; non-trivial = distinct (shape, conditions) with >=2 different conclusions firing")
     run.assumptions = QUERY_ASSUMPTIONS + ["branch conditions mention the base's variables only; one conclusion per branch"]
@@ -1500,13 +1518,13 @@ def check_C12(tier, seed):
     shapes = set()
     # Layer B: the operator structure rule.py wires while blocks are written, evaluated by the conclusion selectors,
     # equals the ripple-down interpreter for every tree and every valuation of the branch conditions
-    run.mc("RuleMech", "wiring", constants=dict(MaxNodes=5 if quick else 7, RefinementRelinks=True, AlternativeClimbsAll=True, WithNext=False),
+    run.mc("RuleMech", "wiring", constants=dict(MaxNodes=5 if quick else 7, RefinementRelinks=True, AlternativeClimbsAll=True, WithNext=False, SiblingRefinements=True),
            invariants=("WiredEqualsFire", "ParentsConsistent"), view="View")
     for nv in (1, 2):
-        trees = run.export("GenRule", f"trees{nv}", "TREE", constants=dict(MaxNodes=3 if quick else 4, NConds=3 if quick else 4, NV=nv,
-                                                                              WithNext=False),
+        trees = run.export("GenRule", f"trees{nv}", "TREE", constants=dict(MaxNodes=4, NConds=3 if quick else 4, NV=nv,
+                                                                              WithNext=False, SiblingRefs=True),
                            invariants=("Export", "SizeOK"))
-        trees += run.export("GenRule", f"walk{nv}", "TREE", constants=dict(MaxNodes=6, NConds=6, NV=nv, WithNext=False),
+        trees += run.export("GenRule", f"walk{nv}", "TREE", constants=dict(MaxNodes=6, NConds=6, NV=nv, WithNext=False, SiblingRefs=True),
                             invariants=("Export", "SizeOK"), simulate=300 if quick else 6000, depth=14)
         cap = 1500 if quick else 30000
         if len(trees) > cap:
@@ -1524,9 +1542,9 @@ def check_C12(tier, seed):
     # wiring model covers them (RuleMech, WithNext) and they are executed and judged like the others, but a disagreement
     # is reported as an OBSERVATION, not as a violation of C12 (the property speaks of refinement and alternative).
     run.mc("RuleMech", "wiring-next", constants=dict(MaxNodes=5 if quick else 6, RefinementRelinks=True, AlternativeClimbsAll=True,
-                                                      WithNext=True), invariants=("WiredEqualsFire", "ParentsConsistent"), view="View")
+                                                      WithNext=True, SiblingRefinements=False), invariants=("WiredEqualsFire", "ParentsConsistent"), view="View")
     for nv in (1, 2):
-        trees = run.export("GenRule", f"next{nv}", "TREE", constants=dict(MaxNodes=3 if quick else 4, NConds=3, NV=nv, WithNext=True),
+        trees = run.export("GenRule", f"next{nv}", "TREE", constants=dict(MaxNodes=3 if quick else 4, NConds=3, NV=nv, WithNext=True, SiblingRefs=False),
                            invariants=("Export", "SizeOK"), count=False)
         trees = [t for t in trees if '"edge": "next"' in json.dumps(t)]
         for t in rng.sample(trees, min(len(trees), 400 if quick else 6000)):
